@@ -58,6 +58,7 @@ TOL_BATCH = 2e-4
 TOL_LIN = 5e-4
 TOL_RECOMB = 2e-4
 TOL_CLOSED = 1e-3
+TOL_SESSION = 5e-4  # session calls (any batch size) vs a fresh un-batched instance; measured floor 2.9e-6
 RHO_MAX = 12.0  # generated stacks keep max|x| / max|x - mean_i| <= 12 (vBF stacks have unit mean and a few % contrast)
 
 KERNELS = {
@@ -107,7 +108,7 @@ def plan(tier, seed):
             s.update(rel="recombine", submask=SUBMASKS[r % len(SUBMASKS)], outer=str(rng.choice(["construction", "sub"])))
             specs.append(s)
     # sessions on ONE instance: every accepted mask form, one mask buffer refilled in place, calls that raise in between
-    n_sess = {"quick": 30, "thorough": 500}[tier]
+    n_sess = {"quick": 30, "thorough": 200}[tier]
     for kernel, w in (("ssb", 1), ("prlx", 1), ("icom", 1), ("obf", 2), ("mf", 2)):
         for r in range(n_sess * w):
             s = common(kernel)
@@ -473,13 +474,13 @@ def _run_session(spec, idx, ctx, rng, sc, dp, M, sig, obs):
             ctx.check(False, "mask_form_dependence", "reconstruct(bf_mask=<%s>) raised %s: %s" % (form, type(e).__name__, str(e)[:200]), **F(form=form, outcome="raised", exc_type=type(e).__name__))
             continue
         if ctx.check(st.shape == stA.shape, "mask_form_dependence", "bf_mask given as %s: corrected_stack shape %s, bool mask gives %s" % (form, st.shape, stA.shape), **F(form=form, outcome="shape")):
-            ctx.close(_m(st - stA) / scaleA, TOL_BATCH, "mask_form_dependence", lambda: "bf_mask given as %s gives another result than the same mask as a bool array on a fresh instance" % form, **F(form=form, outcome="value"))
+            ctx.close(_m(st - stA) / scaleA, TOL_SESSION, "mask_form_dependence", lambda: "bf_mask given as %s gives another result than the same mask as a bool array on a fresh instance" % form, **F(form=form, outcome="value"))
         same = (obj == keep) if isinstance(obj, list) else np.array_equal(_as_np(obj), keep)
         ctx.check(bool(same), "mask_argument_modified", "reconstruct modified the bf_mask argument (%s)" % form, **F(form=form))
     stN = call(None, batch=bsz(M))
     stM, bfM, natM = fresh(M)
     if stN.shape == stM.shape and natM[0] > 0:
-        ctx.close(_m(stN - stM) / natM[0], TOL_BATCH, "mask_form_dependence", "bf_mask=None differs from the construction mask passed explicitly", **F(form="none", outcome="value"))
+        ctx.close(_m(stN - stM) / natM[0], TOL_SESSION, "mask_form_dependence", "bf_mask=None differs from the construction mask passed explicitly", **F(form="none", outcome="value"))
 
     # ---- 2. one mask buffer refilled in place and passed as the same object -----------------------------
     W = lambda mask: ref.aperture_weight(mask, sc.dk, sc.rotation, sc.lam, sc.semiangle)
@@ -499,7 +500,7 @@ def _run_session(spec, idx, ctx, rng, sc, dp, M, sig, obs):
                 ctx.check(False, "mask_buffer_reuse", "step %d (%s): reconstruct raised %s: %s with a %s mask object refilled in place" % (step, nm, type(e).__name__, str(e)[:200], container), **F(container=container, step=step, outcome="raised", exc_type=type(e).__name__))
                 continue
             if natF[0] > 0 and ctx.check(st.shape == stF.shape, "mask_buffer_reuse", "step %d (%s): corrected_stack shape %s, fresh instance gives %s" % (step, nm, st.shape, stF.shape), **F(container=container, step=step, outcome="shape")):
-                ctx.close(_m(st - stF) / natF[0], TOL_BATCH, "mask_buffer_reuse", lambda: "the same %s mask object refilled in place (step %d, contents %s) gives another result than a fresh instance with a fresh copy" % (container, step, nm), **F(container=container, step=step, outcome="value"))
+                ctx.close(_m(st - stF) / natF[0], TOL_SESSION, "mask_buffer_reuse", lambda: "the same %s mask object refilled in place (step %d, contents %s) gives another result than a fresh instance with a fresh copy" % (container, step, nm), **F(container=container, step=step, outcome="value"))
             ctx.check(np.array_equal(_as_np(buf), content), "mask_argument_modified", "reconstruct modified the mask buffer (%s)" % container, **F(form=container + "_buffer"))
             got[nm] = st.sum(0)
         if spec["kernel"] in SINGLE_PASS and all(k in got for k in "ABM"):
@@ -532,7 +533,7 @@ def _run_session(spec, idx, ctx, rng, sc, dp, M, sig, obs):
         for nth in (1, 2):
             st = call(None if use is None else use.copy(), batch=bsz(M if use is None else use))
             if ctx.check(st.shape == stU.shape, "after_error_dependence", "call %d after a raising call (%s): shape %s vs %s" % (nth, name, st.shape, stU.shape), **F(error=name, nth=nth, outcome="shape")):
-                ctx.close(max(_m(st - stU), _m(st - before)) / scaleU, TOL_BATCH, "after_error_dependence", lambda: "call %d after a reconstruct() that raised (%s) differs from the same call before it / on a fresh instance" % (nth, name), **F(error=name, nth=nth, outcome="value"))
+                ctx.close(max(_m(st - stU), _m(st - before)) / scaleU, TOL_SESSION, "after_error_dependence", lambda: "call %d after a reconstruct() that raised (%s) differs from the same call before it / on a fresh instance" % (nth, name), **F(error=name, nth=nth, outcome="value"))
     var = float(np.asarray(sc.stack, dtype=np.float64).var())
     ctx.nontrivial(sig, var > 0 and sc.nbf >= 5 and raised >= 1)
     ctx.observe(forms=len(MASK_FORMS) + 1, buffer_steps=10, error_calls=names, raised=raised, nA=int(A.sum()), nB=int(B.sum()), **obs)
